@@ -180,6 +180,9 @@ def gen_cases(tier, g: G.G, exe=None, ext='-'):
         cases += r.sample(list(G.stream_setlike(g, u1[14:50] + r.sample(u2, 14))), 1000)
         objs_u = [x for x in u2 if x[0] in g.objs]
         cases += list(G.stream_setlike(g, objs_u))                     # exhaustive: set forms x object types^2
+        coll_num = [(f'tuple<{n}>', g.tup(g.atom(n))) for n in g.numeric] + \
+                   [(f'array<{n}>', g.arr(g.atom(n))) for n in g.numeric]
+        cases += list(G.stream_setlike(g, coll_num))                   # exhaustive: set forms x numeric 1-tuples/arrays
         cases += r.sample(list(G.stream_triples(g)), 700)
         cases += r.sample(list(G.stream_funcs(g, u1[:30], u0[:8])), 1000)
         poly = {'std::array_agg', 'std::array_unpack', 'std::min', 'std::max', 'std::sum', 'std::count',
@@ -205,6 +208,8 @@ def gen_cases(tier, g: G.G, exe=None, ext='-'):
                 cases.append(('binop', g.op(name, a, a)))
         cases += list(G.stream_prefix(g, u2))
         cases += list(G.stream_setlike(g, u2))                        # exhaustive: set forms x universe^2
+        cases += list(G.stream_setlike(g, [(f'tuple<{n}>', g.tup(g.atom(n))) for n in g.numeric]
+                                       + [(f'array<{n}>', g.arr(g.atom(n))) for n in g.numeric]))
         cases += list(G.stream_triples(g))
         cases += list(G.stream_funcs(g, u2, u0 + u1[-10:]))
         cases += list(G.stream_recursive(g))
